@@ -245,9 +245,23 @@ def _flat_mul(t_):
 
 
 def _factor_out(term_, sb):
-    """term_ = k * sb (syntactically, sb itself possibly a product)  ->  k, else None"""
-    args = _flat_mul(term_)
-    need = _flat_mul(sb)
+    """term_ = k * sb (syntactically, sb itself possibly a product with a numeric coefficient)  ->  k, else None"""
+    import fractions as _fr
+    isnum = lambda x: z3.is_rational_value(x) or z3.is_int_value(x)
+
+    def split(t):
+        coeff, sym = _fr.Fraction(1), []
+        for x in _flat_mul(t):
+            if isnum(x):
+                fr = x.as_fraction()
+                coeff *= _fr.Fraction(fr.numerator, fr.denominator)
+            else:
+                sym.append(x)
+        return coeff, sym
+    ca, args = split(term_)
+    cb, need = split(sb)
+    if cb == 0:
+        return None
     for y in need:
         for i, x in enumerate(args):
             if x.eq(y):
@@ -255,6 +269,9 @@ def _factor_out(term_, sb):
                 break
         else:
             return None
+    k = ca / cb
+    if k != 1:
+        args = [z3.RealVal(str(k))] + args
     if not args:
         return z3.RealVal(1)
     return args[0] if len(args) == 1 else z3.Product(*args)
@@ -298,15 +315,25 @@ def ite_lift(t, depth=5):
     if not found:
         return t
     i = found[0]
-    return z3.If(i.arg(0), ite_lift(z3.simplify(z3.substitute(t, (i, i.arg(1))), som=True), depth - 1),
-                 ite_lift(z3.simplify(z3.substitute(t, (i, i.arg(2))), som=True), depth - 1))
+    c = i.arg(0)
+    # case split on the condition itself: every if-then-else on the same condition is resolved in each branch
+    return z3.If(c, ite_lift(z3.simplify(z3.substitute(t, (c, z3.BoolVal(True))), som=True), depth - 1),
+                 ite_lift(z3.simplify(z3.substitute(t, (c, z3.BoolVal(False))), som=True), depth - 1))
 
 
 def cancel(ta, tb):
     """algebraic cancellation: (k1*y + k2*y + ...) / y -> k1 + k2 + ... ; None if y is not a syntactic
     factor of every addend of the (sum-of-monomials normalised) numerator"""
     sa = ite_lift(z3.simplify(ta, som=True))
-    sb = z3.simplify(tb, som=True)
+    sb = ite_lift(z3.simplify(tb, som=True))
+    if z3.is_app(sb) and sb.decl().kind() == z3.Z3_OP_ITE and not z3.is_bool(sb):
+        # divisor with a case split: divide case by case (the numerator is specialised to the same case)
+        c = sb.arg(0)
+        x = cancel(z3.substitute(sa, (c, z3.BoolVal(True))), sb.arg(1))
+        y = cancel(z3.substitute(sa, (c, z3.BoolVal(False))), sb.arg(2))
+        if x is not None and y is not None:
+            return z3.If(c, x, y)
+        return None
     if z3.is_rational_value(sa) and sa.as_fraction() == 0:
         return z3.RealVal(0)          # 0 / y = 0 (the value at y == 0 is the caller's concern, as for every quotient)
     if z3.is_app(sa) and sa.decl().kind() == z3.Z3_OP_ITE:
